@@ -277,6 +277,11 @@ pub const MAX_POS: usize = 6;
 pub const MASK_PANICKING_MATCHER: u8 = 254;
 pub const MASK_NO_MATCHER_FN: u8 = 255;
 
+/// `answers_arc` ids in VIA_REF_ANSWER_ID..LENDING_ANSWER_ID produce their value through a reference
+/// lent by the instance they run on (`*u.make_ref(id + x) - x`): a call that is handed another
+/// call's lent value answers with a wrong number.
+pub const VIA_REF_ANSWER_ID: u32 = 7000;
+
 /// `answers_arc` ids in LENDING_ANSWER_ID..PANICKING_ANSWER_ID additionally lend a clone of the mock
 /// (`u.make_ref(u.clone())`).
 pub const LENDING_ANSWER_ID: u32 = 8000;
@@ -454,6 +459,10 @@ fn arc_answer(id: u32) -> Arc<UAnswerFn> {
         }
         if id >= PANICKING_ANSWER_ID {
             panic!("{}", USER_PANIC_ANSWER);
+        }
+        if (VIA_REF_ANSWER_ID..LENDING_ANSWER_ID).contains(&id) {
+            let lent: &u32 = u.make_ref(id + x as u32);
+            return *lent - x as u32;
         }
         id
     })
